@@ -19,7 +19,7 @@ import slices
 import vlib
 
 PROP = "C01"
-QUICK = ["pair_v311_auto", "pair_v311_manual", "pair_v311_chunks", "pair_v50_auto", "pair_v50_manual", "pair_v50_ka", "pair_v50_rm3"]
+QUICK = ["pair_v311_auto", "pair_v311_manual", "pair_v311_chunks", "pair_v50_auto", "pair_v50_manual", "pair_v50_ka", "pair_v50_rm3", "pair_v50_automap"]
 THOROUGH = QUICK + ["pair_v50_alias"]
 LIVE_QUICK = ["pair_live_v311", "pair_live_v50_ka"]
 LIVE_THOROUGH = ["pair_live_v311", "pair_live_v311_manual", "pair_live_v50", "pair_live_v50_ka"]
@@ -96,7 +96,7 @@ def main(tier, replay=None):
 
     thorough = tier == "thorough"
     names = THOROUGH if thorough else QUICK
-    limit = 120000 if thorough else 42000
+    limit = 90000 if thorough else 42000
     slices.write_all(vlib.SPEC)
     rng = random.Random(vlib.seed())
     states = transitions = 0
@@ -131,19 +131,31 @@ def main(tier, replay=None):
         ef = os.path.join(wd, "edges_%s.ndjson" % name)
         kept, covered = vlib.write_schedules(lines, parent, ef, limit=shares[name], rng_seed=rng.randrange(1 << 30))
         wl = graphs[name].walks(wshares[name], random.Random(rng.randrange(1 << 30)))
+        # the same schedules with 32-bit packet identifiers / with Any-role objects on both sides
+        r2 = random.Random(rng.randrange(1 << 30))
+        pool = [l for l in open(ef)]
+        variants = [l.replace('"idw":16', '"idw":32') for l in r2.sample(pool, min(len(pool), max(50, len(pool) // 10)))]
+        variants += [l.replace('"role":"client"', '"role":"any"').replace('"role":"server"', '"role":"any"')
+                     for l in r2.sample(pool, min(len(pool), max(50, len(pool) // 12)))]
         with open(ef, "a") as f:
             for l in wl:
                 f.write(l + "\n")
+            for l in variants:
+                f.write(l if l.endswith("\n") else l + "\n")
         states += res["MC_%s.cfg" % name]["distinct"]
         transitions += total
         per_slice[name] = {"states": res["MC_%s.cfg" % name]["distinct"], "transitions": total, "replayed": covered, "schedules": kept,
-                           "maximal_schedules": len(lines), "graph_walks": len(wl)}
+                           "maximal_schedules": len(lines), "graph_walks": len(wl), "u32_and_any_role_variants": len(variants)}
         edge_files.append(ef)
     del extracted, graphs
     # one harness process + one Trace_Pair run per slice (and one for the random workloads), side by side: every TLC
     # worker deserialises the whole trie it walks, so several small tries are much cheaper than one big one
     drive_n = "600" if thorough else "60"
-    parts = [(os.path.basename(ef)[6:-7], ["--pair-edges", ef]) for ef in edge_files]
+    parts = []
+    for ef in edge_files:
+        pieces = vlib.split_schedules(ef, 6000)
+        for k, q in enumerate(pieces):
+            parts.append((os.path.basename(ef)[6:-7] + ("" if len(pieces) == 1 else ".%d" % k), ["--pair-edges", q]))
     parts.append(("random", ["--drive-pair", drive_n, "--seed", str(vlib.seed()), "--steps", "40" if thorough else "25"]))
 
     def do_part(item):
@@ -156,39 +168,40 @@ def main(tier, replay=None):
         pnodes = vlib.load_trie(ptrie)
         if not os.environ.get("VERIF_KEEP"):
             os.remove(ptrie)
-        return pname, phs, pviols, pnodes
+        g = groups_of(pnodes, pviols)
+        mk = make_replay_fn(pnodes)
+        for sig in g:
+            g[sig]["example"] = mk(g[sig]["example"])
+        qn = sum(1 for n in pnodes[1:] if n.get("quiet"))
+        ln = [n["id"] for n in pnodes[1:] if n["call"]["op"] == "closed" and n.get("who") == "c"]
+        lv = sum(1 for n in pnodes if not n["kids"] and n["id"] != 0)
+        sample = None
+        if ln:
+            nid = ln[len(ln) // 2]
+            sample = [dict(who=x.get("who"), **d) for x, d in zip(vlib.path_to(pnodes, nid)[1:][:18], endpoint.brief_path(pnodes, nid, 18))]
+        return pname, phs, pviols, g, qn, len(ln), lv, len(pnodes), sample
 
     from concurrent.futures import ThreadPoolExecutor
     with ThreadPoolExecutor(max_workers=4 if thorough else 8) as ex:
         results = list(ex.map(do_part, parts))
     groups, viols, hs = {}, [], {"calls": 0, "panics": 0, "ops": {}}
-    part_nodes = {}
     quiet_n = lossy_n = leaves_n = trie_n = 0
     samples = []
-    for pname, phs, pviols, pnodes in results:
-        part_nodes[pname] = pnodes
-        for sig, g in groups_of(pnodes, pviols).items():
-            g["example"] = (pname, g["example"])
+    for pname, phs, pviols, g, qn, ln, lv, nn, sample in results:
+        for sig, gg in g.items():
             if sig in groups:
-                groups[sig]["count"] += g["count"]
+                groups[sig]["count"] += gg["count"]
             else:
-                groups[sig] = g
+                groups[sig] = gg
         viols += pviols
         hs["calls"] += phs.get("calls", 0)
         hs["panics"] += phs.get("panics", 0)
         for k, v in phs.get("ops", {}).items():
             hs["ops"][k] = hs["ops"].get(k, 0) + v
-        qn = [n["id"] for n in pnodes[1:] if n.get("quiet")]
-        ln = [n["id"] for n in pnodes[1:] if n["call"]["op"] == "closed" and n.get("who") == "c"]
-        lv = [n["id"] for n in pnodes if not n["kids"] and n["id"] != 0]
-        quiet_n += len(qn); lossy_n += len(ln); leaves_n += len(lv); trie_n += len(pnodes)
-        if len(samples) < 3 and ln:
-            nid = ln[len(ln) // 2]
-            samples.append([dict(who=x.get("who"), **d) for x, d in zip(vlib.path_to(pnodes, nid)[1:][:18], endpoint.brief_path(pnodes, nid, 18))])
-
-    def replay_of(ex):
-        return make_replay_fn(part_nodes[ex[0]])(ex[1])
-    code, nv, nk = vlib.verdict(PROP, groups, replay_of)
+        quiet_n += qn; lossy_n += ln; leaves_n += lv; trie_n += nn
+        if len(samples) < 3 and sample:
+            samples.append(sample)
+    code, nv, nk = vlib.verdict(PROP, groups, lambda ex_: ex_)
     # per-endpoint clauses of other properties observed on the pair runs are reported, not part of this verdict
     other = sorted({c for _, cl in viols for c in cl if not c.startswith(PROP)})
     if other:
